@@ -1148,8 +1148,9 @@ where
     fn search_jsx_pragma(&mut self, span: Span) {
         if let Some(comments) = &self.comments {
             comments.with_leading(span.lo, |comments| {
-                let pragma = comments.iter().find_map(|comment| {
-                    let trimmed = comment.text.trim();
+                // the annotation may sit on its own line of a multi-line (JSDoc) comment
+                let pragma = comments.iter().flat_map(|c| c.text.lines()).find_map(|line| {
+                    let trimmed = line.trim();
                     trimmed
                         .strip_prefix('*')
                         .unwrap_or(trimmed)
